@@ -45,6 +45,7 @@ def T(text, cdata=False):
     return ["t", text, cdata]
 
 
+_root_ns = {}   # prefix -> URI declared at the root of the document being generated
 _noise = [60]   # one value in _noise[0] is an edge case (set per document)
 
 
@@ -227,12 +228,35 @@ def gpointcloud(rng, prefixes):
     for nm in ["temperature", "relativeHumidity", "atmosphericPressure"]:
         opt(lambda: gfloat(rng, nm), 3)
     proto = E("prototype", [["type", "Structure"]], [grecord(rng, prefixes) for _ in range(rng.below(7))])
-    ch.append(E("points", [["type", "CompressedVector"], ["fileOffset", istr(rng, 0, 2 ** 64 - 1)], ["recordCount", istr(rng, 0, 2 ** 64 - 1)]], [proto]))
+    points = E("points", [["type", "CompressedVector"], ["fileOffset", istr(rng, 0, 2 ** 64 - 1)], ["recordCount", istr(rng, 0, 2 ** 64 - 1)]], [proto])
+    ch.append(points)
+    local_decl = []   # (element, attribute) to add once the vectorChild exists
+    for _ in range(rng.choice([0, 0, 0, 1, 1, 2])):
+        # an extension record whose prefix is declared BELOW the root: on the record, the prototype, points or the
+        # vectorChild; possibly a second prefix for a URI that an outer level already binds
+        lp = rng.choice(["lp", "lq", "l-2"])
+        outer = [(p, u) for p, u in _root_ns.items()]
+        uri = rng.choice(outer)[1] if outer and rng.chance(1, 3) else rng.choice(["urn:local:a", "urn:local:b"])
+        rec = grecord(rng, [lp])
+        rec[1] = lp + ":" + rng.choice(OTHER_NAMES + RECORD_NAMES[:4])
+        use_outer = [p for p, u in outer if u == uri]
+        if use_outer and rng.chance(1, 2):
+            rec[1] = rng.choice(use_outer) + ":" + rec[1].split(":")[1]   # the outer prefix, with an inner one for the same URI in scope
+        level = rng.below(4)
+        proto[3].insert(rng.below(len(proto[3]) + 1), rec)
+        local_decl.append((level, rec, ["xmlns:" + lp, uri]))
     if rng.chance(1, 3):
         # the reader does not depend on the order of fields
         for k in range(len(ch)):
             j = rng.below(len(ch)); ch[k], ch[j] = ch[j], ch[k]
-    return E("vectorChild", [["type", "Structure"]], ch)
+    vc = E("vectorChild", [["type", "Structure"]], ch)
+    for level, rec, decl in local_decl:
+        target = [rec, proto, points, vc][level]
+        if all(a[0] != decl[0] for a in target[2]):
+            target[2].insert(rng.below(len(target[2]) + 1), decl)
+        elif target is not rec and all(a[0] != decl[0] for a in rec[2]):
+            rec[2].append(decl)
+    return vc
 
 
 def grep_node(rng, kind):
@@ -286,6 +310,10 @@ def gen_tree(rng):
         attrs.append(["xmlns:" + p, rng.choice(["http://www.example.com/" + p, "urn:x:" + p, "http://a.b/c?d=1&e=2", E57_NS if rng.chance(1, 10) else "u"])])
     if not rng.chance(1, 15):
         attrs.append(["xmlns", E57_NS if not rng.chance(1, 10) else "http://other"])
+    _root_ns.clear()
+    for a in attrs:
+        if a[0].startswith("xmlns:"):
+            _root_ns[a[0][6:]] = a[1]
     if rng.chance(1, 5):
         k = rng.below(len(attrs)); attrs.append(attrs.pop(k))
     ch = [gstring(rng, "formatName", "ASTM E57 3D Imaging Data File" if not rng.chance(1, 10) else None),
